@@ -276,37 +276,6 @@ fn run_text(ctx: &mut Ctx, text: &str) -> Result<Obs, (String, String)> {
     }
 }
 
-/// the same project through `build` of every package (dependencies first) and `link`
-fn run_text_separate(ctx: &mut Ctx, text: &str) -> Result<Obs, (String, String)> {
-    let mut parts = text.split("//// FILE ");
-    let mut files = vec![("main.gom".to_string(), parts.next().unwrap_or("").to_string())];
-    for part in parts {
-        let (rel, body) = part.split_once('\n').unwrap_or((part, ""));
-        files.push((rel.trim().to_string(), body.to_string()));
-    }
-    let proj = crate::projects::Project { name: "names".into(), files, expected_stdout: None };
-    let root = ctx.scratch.fresh_dir("names-sep");
-    let order: Vec<usize> = (0..proj.files.len()).collect();
-    crate::projects::materialize(&root, &proj, &order);
-    let pkgs = crate::projects::packages(&proj);
-    let Some(topo) = crate::projects::topo_orders(&pkgs).into_iter().next() else {
-        return Err(("machinery".into(), "no build order".into()));
-    };
-    let out = ctx.scratch.fresh_dir("names-out");
-    match crate::projects::separate(&root, &out, &pkgs, &topo, false).built {
-        crate::projects::Built::Ok { go } => {
-            let gr = analyse_and_run(go, FUEL);
-            match (&gr.verdict, &gr.run) {
-                (GoVerdict::Ok(_), Some(r)) => Ok(obs_of_go(r)),
-                (GoVerdict::Rejected(errs), _) => Err((format!("go.{}", errs[0].rule), format!("line {}: {}", errs[0].line, errs[0].msg))),
-                (GoVerdict::Unsupported(m), _) => Err(("machinery.go-unsupported".into(), m.clone())),
-                _ => Err(("machinery".into(), "no run".into())),
-            }
-        }
-        crate::projects::Built::Err { stage, messages } => Err((format!("rejected.{}", stage), messages.join("; "))),
-        crate::projects::Built::Panic(m) => Err(("compile.panic".into(), normalise_msg(&m))),
-    }
-}
 
 impl Family for NamesFamily {
     fn name(&self) -> &'static str {
@@ -447,7 +416,7 @@ impl Family for NamesFamily {
         for pipeline in pipelines {
         let site = if pipeline == "build+link" { format!("{};pipeline=build+link", site) } else { site.clone() };
         let replay = replay.clone();
-        let ran = if pipeline == "build+link" { run_text_separate(ctx, &text) } else { run_text(ctx, &text) };
+        let ran = if pipeline == "build+link" { crate::families::common::run_text_separate(ctx, &text) } else { run_text(ctx, &text) };
         match ran {
             Ok(o) => {
                 if pipeline == "whole-program" {
